@@ -93,8 +93,26 @@ class Eval:
             r = self.place(op[1], depth)
             if at is not None:
                 r = self.refine(op, r, at)
+                if len(op[1]) == 1 and not getattr(self, 'no_forward', False):
+                    fr = self.forward_at(at, op[1][0])
+                    if fr is not None:
+                        r = meet(r, fr) if r is not None else fr
             return r
         return None
+
+    def forward_at(self, bb, local):
+        """flow-sensitive range of a whole local at the end of block bb (forward.py)"""
+        fw = getattr(self, '_fwd', None)
+        if fw is None:
+            from .forward import Forward
+            try:
+                fw = Forward(self.fn, self.summaries)
+            except Exception:
+                fw = False
+            self._fwd = fw
+        if not fw:
+            return None
+        return fw.at_exit(bb, local)
 
     def place_ty(self, pl):
         fn = self.fn
